@@ -21,6 +21,8 @@
 package compile
 
 import (
+	"errors"
+
 	"go.uber.org/thriftrw/ast"
 	"go.uber.org/thriftrw/wire"
 )
@@ -36,6 +38,10 @@ type ServiceSpec struct {
 	Annotations Annotations
 
 	parentSrc *ast.ServiceReference
+
+	// linking is true while Link is on the stack for this service. It is
+	// used to detect services that inherit from themselves.
+	linking bool
 }
 
 func compileService(file string, src *ast.Service) (*ServiceSpec, error) {
@@ -115,8 +121,19 @@ func resolveService(src ast.ServiceReference, scope Scope) (*ServiceSpec, error)
 // Link resolves any references made by the given service.
 func (s *ServiceSpec) Link(scope Scope) error {
 	if s.linked() {
+		if s.linking {
+			// Link was re-entered while resolving this service's parent
+			// chain: the service (transitively) extends itself. Accepting it
+			// leaves a cyclic Parent chain that consumers follow forever.
+			return compileError{
+				Target: s.Name,
+				Reason: errors.New("the service inherits from itself"),
+			}
+		}
 		return nil
 	}
+	s.linking = true
+	defer func() { s.linking = false }()
 
 	if s.parentSrc != nil {
 		parent, err := resolveService(*s.parentSrc, scope)
